@@ -125,6 +125,7 @@ class Scheduler:
         self.replay = list(replay) if replay is not None else None
         self.pos = 0
         self.trace = []
+        self.widths = []
         self.chunk_mode = chunk_mode
         self.rr = 0
         self.bias = None
@@ -136,6 +137,7 @@ class Scheduler:
             c = default()
         self.pos += 1
         self.trace.append(c)
+        self.widths.append(n)
         return c
 
     def choose(self, options):
@@ -444,7 +446,9 @@ class SimNet:
         self.tasks = []
         for i in range(self.m):
             prog = programs[i] if programs is not None else program
-            self.tasks.append(self.loop.create_task(self._main(i, prog, shutdown), context=self.ctx[i]))
+            tk = self.loop.create_task(self._main(i, prog, shutdown), context=self.ctx[i])
+            tk._verif_main = i
+            self.tasks.append(tk)
         allf = asyncio.gather(*self.tasks, return_exceptions=True)
         try:
             self.loop.run_until_complete(allf)
